@@ -93,14 +93,22 @@ func builtinNumberToExponential(call FunctionCall) Value {
 	if call.This.IsNaN() {
 		return stringValue("NaN")
 	}
+	number := call.This.float64()
+	if math.IsInf(number, 0) {
+		// ES5 15.7.4.6 steps 5-6: decided before the range check.
+		return stringValue(floatToString(number, 64))
+	}
 	precision := float64(-1)
 	if value := call.Argument(0); value.IsDefined() {
 		precision = toIntegerFloat(value)
-		if 0 > precision {
-			panic(call.runtime.panicRangeError("toString() radix must be between 2 and 36"))
+		if 0 > precision || 20 < precision {
+			panic(call.runtime.panicRangeError("toExponential() precision must be between 0 and 20"))
 		}
 	}
-	return stringValue(strconv.FormatFloat(call.This.float64(), 'e', int(precision), 64))
+	if number == 0 {
+		number = math.Abs(number) // negative zero has no sign
+	}
+	return stringValue(strconv.FormatFloat(number, 'e', int(precision), 64))
 }
 
 func builtinNumberToPrecision(call FunctionCall) Value {
@@ -111,11 +119,19 @@ func builtinNumberToPrecision(call FunctionCall) Value {
 	if value.IsUndefined() {
 		return stringValue(call.This.string())
 	}
-	precision := toIntegerFloat(value)
-	if 1 > precision {
-		panic(call.runtime.panicRangeError("toPrecision() precision must be greater than 1"))
+	number := call.This.float64()
+	if math.IsInf(number, 0) {
+		// ES5 15.7.4.7 steps 6-7: decided before the range check.
+		return stringValue(floatToString(number, 64))
 	}
-	return stringValue(strconv.FormatFloat(call.This.float64(), 'g', int(precision), 64))
+	precision := toIntegerFloat(value)
+	if 1 > precision || 21 < precision {
+		panic(call.runtime.panicRangeError("toPrecision() precision must be between 1 and 21"))
+	}
+	if number == 0 {
+		number = math.Abs(number) // negative zero has no sign
+	}
+	return stringValue(strconv.FormatFloat(number, 'g', int(precision), 64))
 }
 
 func builtinNumberIsNaN(call FunctionCall) Value {
